@@ -2,7 +2,7 @@
 
 use crate::common::*;
 use crate::gen::ref_len_octets;
-use crate::c16::{Os, os_encode};
+use crate::c16::{Os, os_encode, os_encode_forms};
 use bcder::decode::{Constructed, IntoSource};
 use bcder::string::{Ia5String, NumericString, PrintableString, Utf8String};
 use bcder::OctetString;
@@ -113,7 +113,8 @@ pub fn run(em: &mut Emitter, rng: &mut Rng, thorough: bool) {
         let k1 = rng.below(b.len() as u64 + 1) as usize; let k2 = rng.range(k1 as u64, b.len() as u64) as usize;
         let o = if rng.bool() { Os::Cons(rng.bool(), vec![Os::Prim(b[..k1].to_vec()), Os::Prim(b[k1..k2].to_vec()), Os::Cons(rng.bool(), vec![Os::Prim(b[k2..].to_vec())])]) }
                 else { split_os(rng, &b, 3) };
-        let mut data = Vec::new(); os_encode(&o, TAGS[cs as usize], &mut data);
+        // half of the time with random (non-minimal, BER-legal) length forms on every segment header
+        let mut data = Vec::new(); if rng.bool() { os_encode(&o, TAGS[cs as usize], &mut data); } else { os_encode_forms(&o, TAGS[cs as usize], &mut data, rng); }
         // in BER mode every segmentation is legal: the string is accepted exactly when the assembled octets are valid
         let mode = if rng.chance(4, 5) { 0 } else { rng.below(3) as u8 };
         decode_case(em, cs, mode, &data, if mode == 0 { Some(&b) } else { None });
